@@ -1,8 +1,10 @@
 package main
 
 import (
+	"bytes"
 	"fmt"
 	"go/ast"
+	"go/printer"
 	"go/token"
 	"sort"
 	"strconv"
@@ -138,6 +140,349 @@ func isLastCall(e ast.Expr) bool {
 	}
 	ch := selChain(c.Fun)
 	return len(ch) == 2 && ch[1] == "isLastStmt"
+}
+
+// render prints an expression as source text
+func render(fset *token.FileSet, n ast.Node) string {
+	var b bytes.Buffer
+	if err := printer.Fprint(&b, fset, n); err != nil {
+		return "?"
+	}
+	return strings.Join(strings.Fields(b.String()), " ")
+}
+
+// coqStr: a Coq string literal (no escapes; a quote is doubled)
+func seqCoqStr(s string) string { return "\"" + strings.ReplaceAll(s, "\"", "\"\"") + "\"" }
+
+// optionLayerFacts: what the model of the option layer and of the label pipeline (Seq/SeqOpts.v, Seq/Fmt.v) takes for
+// granted about fmtparser.go, visitor.go and sequencediagram.go:
+//
+//	item_regexps     the eleven ItemRe* expressions, by name (the scanners of Fmt.v are written against these texts)
+//	match_consts     MatchSymbol / MatchWord / MatchLookahead
+//	mece_rule        MakeEndpointCollectionElement: the condition under which a blackbox is taken, the condition under
+//	                 which its comment is cleared, and what is assigned
+//	visiting_format  the key visitEndpoint looks blackboxes up with
+//	cut_rule         the condition of visitEndpoint's "shown but not expanded" branch
+//	bb_kinds         the Upto kinds DoConstructSequenceDiagrams hands to TransformBlackboxesToUptos, in source order
+//	fmt_checked_now  every FormatParser DoConstructSequenceDiagrams builds is tried (Check) before it is used and a
+//	                 failure is returned as an error
+func optionLayerFacts(repo string, visitor *goFile, sb *strings.Builder, unknown func(string, ...interface{})) {
+	b2s := func(b bool) string {
+		if b {
+			return "true"
+		}
+		return "false"
+	}
+	// ---- fmtparser.go
+	type kv struct{ k, v string }
+	var res, consts []kv
+	if gf, err := parseGo(repo, "pkg/cmdutils/fmtparser.go"); err != nil {
+		unknown("fmtparser.go: %v", err)
+	} else {
+		for _, d := range gf.file.Decls {
+			gd, ok := d.(*ast.GenDecl)
+			if !ok {
+				continue
+			}
+			for _, sp := range gd.Specs {
+				vs, ok := sp.(*ast.ValueSpec)
+				if !ok {
+					continue
+				}
+				for i, n := range vs.Names {
+					if strings.HasPrefix(n.Name, "ItemRe") && i < len(vs.Values) {
+						if c, ok := vs.Values[i].(*ast.CallExpr); ok && len(c.Args) == 1 {
+							if ch := selChain(c.Fun); len(ch) == 2 && ch[0] == "regexp" && ch[1] == "MustCompile" {
+								if v, ok := strLit(c.Args[0]); ok {
+									res = append(res, kv{n.Name, v})
+									continue
+								}
+							}
+						}
+						unknown("fmtparser.go: %s is not regexp.MustCompile(<literal>)", n.Name)
+					}
+				}
+			}
+			if gd.Tok == token.CONST {
+				for i, sp := range gd.Specs {
+					if vs, ok := sp.(*ast.ValueSpec); ok && len(vs.Names) == 1 && strings.HasPrefix(vs.Names[0].Name, "Match") {
+						v := "iota"
+						if i == 0 && len(vs.Values) == 1 {
+							v = render(gf.fset, vs.Values[0])
+						}
+						consts = append(consts, kv{vs.Names[0].Name, v})
+					}
+				}
+			}
+		}
+	}
+	sort.Slice(res, func(i, j int) bool { return res[i].k < res[j].k })
+	sb.WriteString("Definition item_regexps : list (string * string) := [")
+	for i, r := range res {
+		if i > 0 {
+			sb.WriteString("; ")
+		}
+		fmt.Fprintf(sb, "(%s, %s)", seqCoqStr(r.k), seqCoqStr(r.v))
+	}
+	sb.WriteString("].\n")
+	sb.WriteString("Definition match_consts : list (string * string) := [")
+	for i, r := range consts {
+		if i > 0 {
+			sb.WriteString("; ")
+		}
+		fmt.Fprintf(sb, "(%s, %s)", seqCoqStr(r.k), seqCoqStr(r.v))
+	}
+	sb.WriteString("].\n")
+	// ---- visitor.go
+	take, clear, assign, visiting, cut := "unknown", "unknown", "unknown", "unknown", "unknown"
+	for _, fd := range funcDecls(visitor.file) {
+		if fd.Body == nil {
+			continue
+		}
+		switch fd.Name.Name {
+		case "MakeEndpointCollectionElement":
+			ast.Inspect(fd.Body, func(n ast.Node) bool {
+				rs, ok := n.(*ast.RangeStmt)
+				if !ok || !isIdent(rs.X, "blackboxes") {
+					return true
+				}
+				for _, st := range rs.Body.List {
+					if is, ok := st.(*ast.IfStmt); ok && is.Else == nil {
+						take = render(visitor.fset, is.Cond)
+						for _, in := range is.Body.List {
+							if is2, ok := in.(*ast.IfStmt); ok && is2.Else == nil && len(is2.Body.List) == 1 {
+								clear = render(visitor.fset, is2.Cond)
+								assign = render(visitor.fset, is2.Body.List[0])
+							}
+						}
+					}
+				}
+				return false
+			})
+		case "visitEndpoint":
+			ast.Inspect(fd.Body, func(n ast.Node) bool {
+				switch x := n.(type) {
+				case *ast.AssignStmt:
+					if len(x.Lhs) == 1 && isIdent(x.Lhs[0], "visiting") && len(x.Rhs) == 1 {
+						if c, ok := x.Rhs[0].(*ast.CallExpr); ok && len(c.Args) == 3 {
+							if v, ok := strLit(c.Args[0]); ok {
+								visiting = v + " " + render(visitor.fset, c.Args[1]) + " " + render(visitor.fset, c.Args[2])
+							}
+						}
+					}
+				case *ast.IfStmt:
+					if mentions(x.Cond, "hitVisited") && mentions(x.Cond, "hitUpto") {
+						cut = render(visitor.fset, x.Cond)
+					}
+				}
+				return true
+			})
+		}
+	}
+	// the one-character convention: either the comment is cleared in the shared Upto (the inner `if` above), or the
+	// Upto is left alone and the text is dropped where a note is written: a method `note` of Upto that returns "" for
+	// len(u.Comment) == 1, and visitEndpoint never reads upto.Comment itself
+	onecharInHeap := clear != "unknown"
+	if !onecharInHeap && take != "unknown" {
+		noteOK, readsComment := false, false
+		for _, fd := range funcDecls(visitor.file) {
+			if fd.Body == nil {
+				continue
+			}
+			if recvName(fd) == "Upto" && fd.Name.Name == "note" && len(fd.Body.List) == 2 {
+				if is, ok := fd.Body.List[0].(*ast.IfStmt); ok && render(visitor.fset, is.Cond) == "len("+recvVar(fd)+".Comment) == 1" && len(is.Body.List) == 1 {
+					if rs, ok := is.Body.List[0].(*ast.ReturnStmt); ok && len(rs.Results) == 1 && render(visitor.fset, rs.Results[0]) == `""` {
+						if rs2, ok := fd.Body.List[1].(*ast.ReturnStmt); ok && len(rs2.Results) == 1 && render(visitor.fset, rs2.Results[0]) == recvVar(fd)+".Comment" {
+							noteOK = true
+						}
+					}
+				}
+			}
+			if fd.Name.Name == "visitEndpoint" {
+				ast.Inspect(fd.Body, func(n ast.Node) bool {
+					if se, ok := n.(*ast.SelectorExpr); ok && se.Sel.Name == "Comment" {
+						readsComment = true
+					}
+					return true
+				})
+			}
+		}
+		if noteOK && !readsComment {
+			clear, assign = "none", "none"
+		}
+	}
+	for _, v := range []string{take, clear, assign, visiting, cut} {
+		if v == "unknown" {
+			unknown("option layer: a construct of MakeEndpointCollectionElement / visitEndpoint was not found")
+			break
+		}
+	}
+	fmt.Fprintf(sb, "Definition onechar_in_heap_now : bool := %s.\n", b2s(onecharInHeap))
+	// ---- utils.go: TransformBlackBoxes reads the elements with the nil-safe getter; TransformBlackboxesToUptos indexes
+	// val[1] only under a test of len(val)
+	guarded := false
+	if gf, err := parseGo(repo, "pkg/cmdutils/utils.go"); err != nil {
+		unknown("utils.go: %v", err)
+	} else {
+		safeElts, safeIndex, seen := true, true, 0
+		for _, fd := range funcDecls(gf.file) {
+			if fd.Body == nil {
+				continue
+			}
+			switch fd.Name.Name {
+			case "TransformBlackBoxes":
+				seen++
+				ast.Inspect(fd.Body, func(n ast.Node) bool {
+					if se, ok := n.(*ast.SelectorExpr); ok && se.Sel.Name == "Elt" {
+						safeElts = false // direct field access on what GetA() returned
+					}
+					return true
+				})
+			case "TransformBlackboxesToUptos":
+				seen++
+				var walk func(n ast.Node, underLen bool)
+				walk = func(n ast.Node, underLen bool) {
+					ast.Inspect(n, func(x ast.Node) bool {
+						switch y := x.(type) {
+						case *ast.IfStmt:
+							u := underLen || strings.Contains(render(gf.fset, y.Cond), "len(val)")
+							walk(y.Body, u)
+							if y.Else != nil {
+								walk(y.Else, underLen)
+							}
+							return false
+						case *ast.IndexExpr:
+							if isIdent(y.X, "val") && !underLen {
+								if v, ok := intLit(y.Index); ok && v != "0" {
+									safeIndex = false
+								}
+							}
+						}
+						return true
+					})
+				}
+				walk(fd.Body, false)
+				if !strings.Contains(render(gf.fset, fd.Body), "len(val)") {
+					safeIndex = false
+				}
+			}
+		}
+		if seen != 2 {
+			unknown("utils.go: TransformBlackBoxes / TransformBlackboxesToUptos not found")
+		}
+		guarded = safeElts && safeIndex
+		if safeElts != safeIndex {
+			unknown("utils.go: only one of TransformBlackBoxes / TransformBlackboxesToUptos is guarded")
+		}
+	}
+	fmt.Fprintf(sb, "Definition bbattr_guarded_now : bool := %s.\n", b2s(guarded))
+	fmt.Fprintf(sb, "Definition mece_rule : string * string * string := (%s, %s, %s).\n", seqCoqStr(take), seqCoqStr(clear), seqCoqStr(assign))
+	fmt.Fprintf(sb, "Definition visiting_format : string := %s.\n", seqCoqStr(visiting))
+	fmt.Fprintf(sb, "Definition cut_rule : string := %s.\n", seqCoqStr(cut))
+	// ---- sequencediagram.go
+	var kinds []string
+	var kindMaps []string
+	deletes, warnsInBbs2 := false, false
+	checked := false
+	if gf, err := parseGo(repo, "pkg/sequencediagram/sequencediagram.go"); err != nil {
+		unknown("sequencediagram.go: %v", err)
+	} else {
+		for _, fd := range funcDecls(gf.file) {
+			if fd.Name.Name != "DoConstructSequenceDiagrams" || fd.Body == nil {
+				continue
+			}
+			parsers := map[string]bool{}
+			tried := map[string]bool{}
+			ast.Inspect(fd.Body, func(n ast.Node) bool {
+				switch x := n.(type) {
+				case *ast.AssignStmt:
+					if len(x.Lhs) == 1 && len(x.Rhs) == 1 {
+						if c, ok := x.Rhs[0].(*ast.CallExpr); ok {
+							ch := selChain(c.Fun)
+							if len(ch) > 0 && (ch[len(ch)-1] == "ConstructFormatParser" || ch[len(ch)-1] == "MakeFormatParser") {
+								if id, ok := x.Lhs[0].(*ast.Ident); ok {
+									parsers[id.Name] = true
+								}
+							}
+						}
+					}
+				case *ast.IfStmt:
+					// if err := <p>.Check(); err != nil { return nil, err }   or   checkFormats(<p>, ...)
+					as, ok := x.Init.(*ast.AssignStmt)
+					if !ok || len(as.Rhs) != 1 || len(x.Body.List) == 0 {
+						return true
+					}
+					if _, ok := x.Body.List[len(x.Body.List)-1].(*ast.ReturnStmt); !ok {
+						return true
+					}
+					if c, ok := as.Rhs[0].(*ast.CallExpr); ok {
+						ch := selChain(c.Fun)
+						switch {
+						case len(ch) == 2 && ch[1] == "Check":
+							tried[ch[0]] = true
+						case len(ch) == 1 && ch[0] == "checkFormats":
+							for _, a := range c.Args {
+								if id, ok := a.(*ast.Ident); ok {
+									tried[id.Name] = true
+								}
+							}
+						}
+					}
+				case *ast.CallExpr:
+					ch := selChain(x.Fun)
+					if len(ch) > 0 && ch[len(ch)-1] == "TransformBlackboxesToUptos" && len(x.Args) == 3 {
+						kinds = append(kinds, render(gf.fset, x.Args[2]))
+						kindMaps = append(kindMaps, render(gf.fset, x.Args[0]))
+					}
+					if isIdent(x.Fun, "delete") {
+						deletes = true
+					}
+				case *ast.RangeStmt:
+					if isIdent(x.X, "bbs2") {
+						ast.Inspect(x.Body, func(y ast.Node) bool {
+							if c, ok := y.(*ast.CallExpr); ok {
+								if ch := selChain(c.Fun); len(ch) == 2 && ch[1] == "Warnf" {
+									warnsInBbs2 = true
+								}
+							}
+							return true
+						})
+					}
+				}
+				return true
+			})
+			checked = len(parsers) > 0
+			for p := range parsers {
+				if !tried[p] {
+					checked = false
+				}
+			}
+			if len(parsers) == 0 {
+				unknown("DoConstructSequenceDiagrams: no format parser construction found")
+			}
+		}
+	}
+	sb.WriteString("Definition bb_kinds : list string := [")
+	for i, k := range kinds {
+		if i > 0 {
+			sb.WriteString("; ")
+		}
+		sb.WriteString(seqCoqStr(k))
+	}
+	sb.WriteString("].\n")
+	fmt.Fprintf(sb, "Definition fmt_checked_now : bool := %s.\n", b2s(checked))
+	// the endpoint's blackboxes: into the application's map and deleted from it afterwards, or into a map of their own
+	layered := false
+	if len(kindMaps) == 3 {
+		layered = kindMaps[0] != kindMaps[1] && !deletes
+		if (kindMaps[0] == kindMaps[1]) != deletes {
+			unknown("DoConstructSequenceDiagrams: endpoint blackboxes neither shared-and-deleted nor in a map of their own")
+		}
+	} else {
+		unknown("DoConstructSequenceDiagrams: expected three TransformBlackboxesToUptos calls")
+	}
+	fmt.Fprintf(sb, "Definition ep_layered_now : bool := %s.\n", b2s(layered))
+	fmt.Fprintf(sb, "Definition ep_empty_reported_now : bool := %s.\n", b2s(warnsInBbs2))
 }
 
 func seqShape(repo string) (string, error) {
@@ -576,8 +921,10 @@ func seqShape(repo string) (string, error) {
 		}
 		return "false"
 	}
+	var opt strings.Builder
+	optionLayerFacts(repo, gf, &opt, unknown)
 	var sb strings.Builder
-	sb.WriteString("(* GENERATED by vt SeqShape from pkg/cmdutils/visitor.go -- do not edit *)\n")
+	sb.WriteString("(* GENERATED by vt SeqShape from pkg/cmdutils/visitor.go, fmtparser.go, pkg/sequencediagram/sequencediagram.go -- do not edit *)\n")
 	sb.WriteString("From Coq Require Import String List NArith.\nImport ListNotations.\nRequire Import Verif.Seq.SeqModel.\nLocal Open Scope string_scope.\n")
 	for _, w := range why {
 		fmt.Fprintf(&sb, "(* not classified: %s *)\n", strings.ReplaceAll(w, "*)", "* )"))
@@ -612,5 +959,6 @@ func seqShape(repo string) (string, error) {
 	fmt.Fprintf(&sb, "Definition group_stmt_closes : bool := %s.\n", b2s(groupCloses))
 	fmt.Fprintf(&sb, "Definition alt_rule : string := %q.\n", altRule)
 	fmt.Fprintf(&sb, "Definition is_last_rule : string := %q.\n", isLastRule)
+	sb.WriteString(opt.String())
 	return sb.String(), nil
 }
